@@ -142,6 +142,7 @@ def simulate(cfg: dict, schedule: typing.Optional[list] = None) -> dict:
     serving.DELAYS.update({r['rid']: r['delay'] for r in cfg['requests'] if r['delay']})
     kcfg = dict(cfg['kernel'])
     kcfg['trace_files'] = seams.TRACE_FILES
+    kcfg['trace_entry_files'] = seams.TRACE_ENTRY_FILES
     kcfg['keep_log'] = False
     if schedule is not None:
         kcfg['schedule'] = list(schedule)
